@@ -104,6 +104,29 @@ def run(ctx):
                'kinds are pairwise distinct: %s' % sorted(kind_of.values()),
                'two classes dispatch to the same kind %s' % dup, construct='distinct kinds')
 
+    # overrides outside the two reviewed modules (subclasses of the node / parsed-arguments classes)
+    n_ov = 0
+    for mn_, mod_ in sorted(ctx.repo.modules.items()):
+        if mod_ is m or mod_ is pa:
+            continue
+        for q_, f_ in sorted(mod_.functions.items()):
+            if not q_.endswith('.accept_node_visitor'):
+                continue
+            n_ov += 1
+            body_ = [b_ for b_ in f_.body if not (isinstance(b_, ast.Expr) and isinstance(b_.value, ast.Constant))]
+            okov = len(body_) == 1 and isinstance(body_[0], ast.Return) and isinstance(body_[0].value, ast.Call) and (
+                (call_name(body_[0].value).startswith('node_standard_process_') and len(body_[0].value.args) == 1
+                 and unparse(body_[0].value.args[0]) == 'self') or
+                (call_name(body_[0].value) == 'accept_node_visitor' and 'super' in unparse(body_[0].value.func)))
+            ctx.decide('V1', okov, mod_, f_, '%s delegates to the standard dispatch' % q_,
+                       '%s overrides accept_node_visitor with its own traversal instead of the single dispatch to '
+                       'visitor.node_standard_process_<kind>(self): the children the standard dispatch descends into (every entry '
+                       'of argnlist, None for an absent argument) are not all visited, or are visited in another shape -- '
+                       'a visitor sees the arguments of such a construct not at all or not one result per argument'
+                       % q_, construct='%s' % q_)
+    ctx.holds('V1', m, None, '%d override(s) of accept_node_visitor outside nodes.py / _parsedargs.py' % n_ov,
+              construct='overrides elsewhere', trivial=True)
+
     # child-bearing fields per class, from the _fields declaration
     fields_of = {}
     for q, (c, meth, mod) in classes.items():
